@@ -53,16 +53,30 @@ def semFinal (r e : Int) : Out :=
     if e = EAGAIN then .ret UV_EAGAIN else .abort
   else .ret 0
 
-/-- thread.c:673-675 `do r = sem_trywait(sem); while (r == -1 && errno == EINTR);` followed by
-    `semFinal`.  The script lists the (result, errno) pairs of the successive `sem_trywait`
-    calls; `none` = the script ended while the loop was still retrying.
-    Second component: number of `sem_trywait` calls made. -/
-def semTrywait : List (Int × Int) → Option (Out × Nat)
+/-- the retry idiom `do r = CALL; while (r == -1 && errno == EINTR);` followed by a final
+    decision on the (result, errno) pair that ended the loop.  The script lists the
+    (result, errno) pairs of the successive platform calls; `none` = the script ended while the
+    loop was still retrying (the wrapper has not returned).  Second component: number of calls. -/
+def retryEintr (final : Int → Int → Out) : List (Int × Int) → Option (Out × Nat)
   | [] => none
   | (r, e) :: rest =>
     if r = -1 ∧ e = EINTR then
-      (semTrywait rest).map fun (o, n) => (o, n + 1)
-    else some (semFinal r e, 1)
+      (retryEintr final rest).map fun (o, n) => (o, n + 1)
+    else some (final r e, 1)
+
+/-- thread.c:667-684 `uv__sem_trywait`: loop :673-675 then `semFinal` -/
+def semTrywait (script : List (Int × Int)) : Option (Out × Nat) := retryEintr semFinal script
+
+/-- thread.c:665-666 `uv__sem_wait` after its loop: `if (r) abort();` (void: `ret 0` = returned) -/
+def semWaitFinal (r _e : Int) : Out := if r ≠ 0 then .abort else .ret 0
+
+/-- thread.c:658-667 `uv__sem_wait`: `do r = sem_wait(sem); while (r == -1 && errno == EINTR);
+    if (r) abort();` -/
+def semWait (script : List (Int × Int)) : Option (Out × Nat) := retryEintr semWaitFinal script
+
+/-- core.c:1837-1849 `uv_sleep`: `do rc = nanosleep(&timeout, &timeout); while (rc == -1 &&
+    errno == EINTR); assert(rc == 0);` (assert active: non-NDEBUG build) -/
+def sleepLoop (script : List (Int × Int)) : Option (Out × Nat) := retryEintr semWaitFinal script
 
 /-- thread.c:869-880 `uv_cond_timedwait` tail:
     `if (r == 0) return 0; if (r == ETIMEDOUT) return UV_ETIMEDOUT; abort();` -/
